@@ -487,7 +487,12 @@ def _lt(left: object, right: object) -> bool:
     if isinstance(left, str) and isinstance(right, str):
         return left < right
 
-    if isinstance(left, (int, float)) and isinstance(right, (int, float)):
+    if (
+        isinstance(left, (int, float))
+        and isinstance(right, (int, float))
+        and not isinstance(left, bool)
+        and not isinstance(right, bool)
+    ):
         return left < right
 
     return False
